@@ -48,11 +48,11 @@ func parseMakefile(path string) ([]makeRule, map[string]string, error) {
 		return s
 	}
 	var rules []makeRule
-	var cur *makeRule
+	var cur []int // the rules the recipe lines that follow belong to
 	for _, line := range strings.Split(text, "\n") {
 		if strings.HasPrefix(line, "\t") {
-			if cur != nil {
-				cur.Recipe = append(cur.Recipe, expand(strings.TrimSpace(line)))
+			for _, k := range cur {
+				rules[k].Recipe = append(rules[k].Recipe, expand(strings.TrimSpace(line)))
 			}
 			continue
 		}
@@ -65,16 +65,41 @@ func parseMakefile(path string) ([]makeRule, map[string]string, error) {
 			cur = nil
 			continue
 		}
+		cur = nil
 		if i := strings.Index(t, ":"); i > 0 && !strings.HasPrefix(t, ".PHONY") && !strings.HasPrefix(t, "export") {
 			tg := strings.Fields(expand(t[:i]))
-			deps := strings.Fields(expand(t[i+1:]))
+			rest := expand(t[i+1:])
+			if j := strings.Index(rest, ":"); j >= 0 && strings.Contains(rest[:j], "%") {
+				// static pattern rule `targets: target-pattern: prerequisite-patterns`: one rule per target, the stem
+				// substituted into the prerequisites
+				tp := strings.TrimSpace(rest[:j])
+				pre, suf, _ := strings.Cut(tp, "%")
+				for _, target := range tg {
+					target = filepath.Clean(target)
+					cpre := pre
+					if cpre != "" {
+						cpre = filepath.Clean(cpre)
+					}
+					if !strings.HasPrefix(target, cpre) || !strings.HasSuffix(target, suf) || len(target) < len(cpre)+len(suf) {
+						continue
+					}
+					stem := target[len(cpre) : len(target)-len(suf)]
+					var deps []string
+					for _, d := range strings.Fields(rest[j+1:]) {
+						deps = append(deps, strings.Replace(d, "%", stem, 1))
+					}
+					rules = append(rules, makeRule{Target: target, Deps: deps})
+					cur = append(cur, len(rules)-1)
+				}
+				continue
+			}
+			deps := strings.Fields(rest)
 			if len(tg) == 1 {
 				rules = append(rules, makeRule{Target: filepath.Clean(tg[0]), Deps: deps})
-				cur = &rules[len(rules)-1]
+				cur = []int{len(rules) - 1}
 				continue
 			}
 		}
-		cur = nil
 	}
 	return rules, vars, nil
 }
